@@ -153,7 +153,8 @@ def make_models(extra_numpy=None):
     M["re"] = ExtModule("re", {})
     M["time"] = ExtModule("time", {})
     M["networkx"] = ExtModule("networkx", {})
-    M["scipy.linalg"] = ExtModule("scipy.linalg", {})
+    from .geom_model import ExpmModel
+    M["scipy.linalg"] = ExtModule("scipy.linalg", {"expm": ExpmModel()})
     M["scipy"] = ExtModule("scipy", {})
     from .ase_model import PCG64Model, RngModel
 
